@@ -315,6 +315,47 @@ _LIBS = []            # every Lib created in this process (a worker has one or t
 SHADOW_SEED = None    # set by common.pmap in the worker before the item runs: the shadow log is on for every Lib created afterwards
 
 
+SHADOW_KINDS = ("order-dependence", "repeat-dependence", "noslot-differs", "errno-dependence", "sibling-dependence")
+
+
+def replay_shadow_item(item):
+    """one shadow-replay finding re-enacted in a fresh process: the question cold, then in the recorded context -> list of findings"""
+    lib_path, src, rec = item
+    from common import Stats
+    st = Stats()
+    L = Lib(lib_path, Headers(src))
+    L._shadow = None
+    c = rec["case"]
+    kind = rec["signature"].split(":")[0]
+    enc = lambda a: a.encode("latin-1") if isinstance(a, str) else a
+    name, args = c["fn"], tuple(enc(a) for a in c["args"])
+    same = lambda a, b: a == b or (a != a and b != b)
+    v0, e0 = L.call(name, *args)
+    if kind == "order-dependence" and c.get("previous_call"):
+        pc = c["previous_call"]
+        L.call(pc[0], *[enc(a) for a in pc[1:]])
+        v1, e1 = L.call(name, *args)
+    elif kind == "repeat-dependence":
+        v1, e1 = L.call(name, *args)
+    elif kind == "noslot-differs":
+        v1, e1 = L.noslot(name, *args), e0
+    elif kind == "errno-dependence":
+        ctypes.set_errno(int(c.get("stale_errno", 34)))
+        v1, e1 = L.call(name, *args)
+        ctypes.set_errno(0)
+    elif kind == "sibling-dependence":
+        sib = tuple(enc(a) for a in c["sibling"])
+        L.call(name, *sib)
+        v0, e0 = L.call(name, *sib)
+        L.call(name, *args)
+        v1, e1 = L.call(name, *sib)
+    else:
+        v1, e1 = L.call(name, *args)
+    if not same(v0, v1) or (e0 is None) != (e1 is None):
+        st.violation(rec["signature"], c, dict(value=v0, error=e0), dict(value=v1, error=e1))
+    return st
+
+
 def shadow_finish(st):
     """replay the shadow logs of all libraries of this worker into its Stats (called by common.pmap after the item's own work)"""
     for L in _LIBS:
